@@ -332,6 +332,18 @@ def R5_bundle(run):
             reach_codes |= cfg.block_error_codes(fn, b)
         run.check("R5", "reject[open=%d]" % open_, code in reach_codes and other not in reach_codes, "update_bitmap(open=%s) can fail with %s" % (open_, sorted(reach_codes & {code, other})), loc=fn.loc(),
                   detail="only %s" % code)
+        # ... and exactly when the bit already has the requested state
+        bits = [at for at in A.atoms(fn, ctx) if at.cond() and at.cond()[0] in ("Ne", "Eq") and const_val(at.cond()[2]) == 0 and strip(at.cond()[1])[0] == "bin" and strip(at.cond()[1])[1] == "BitAnd"]
+        ok = len(bits) == 1
+        if ok:
+            at = bits[0]
+            set_fails = at.true_fail if at.cond()[0] == "Ne" else at.false_fail
+            clear_fails = at.false_fail if at.cond()[0] == "Ne" else at.true_fail
+            ok = (set_fails, clear_fails) == ((True, False) if open_ else (False, True))
+            m = strip(at.cond()[1])
+            ok = ok and any(strip(x)[0] == "bin" and strip(x)[1] in ("Shl", "ShlUnchecked") and const_val(strip(x)[2]) == 1 for x in (m[2], m[3]))
+        run.check("R5", "reject-iff-same-state[open=%d]" % open_, ok, "update_bitmap(open=%s) must fail exactly when the index's bit is already %s" % (open_, "set" if open_ else "clear"), loc=fn.loc(),
+                  detail="bit %s => %s" % ("set" if open_ else "clear", code))
     pv = prov_of(fn)
     ws = [w for w in writes.field_stores(facts) if w["fn"] is fn and w["field"] == "position_bitmap"]
     ok = len(ws) == 1
